@@ -37,6 +37,10 @@ OPS = {
                   ["(hi : AL.get? s.nodes n = some i)", "(hk : i.kind = .junction)"], ""),
     "addFire": ("Demand", "(s : Reg) (n p : Name) (i : NodeInfo)", "addFireR s n p i",
                 ["(hi : AL.get? s.nodes n = some i)", "(hk : i.kind = .junction)"], ""),
+    "clearDemands": ("Demand", "(s : Reg) (n : Name) (i : NodeInfo)", "clearDemandsR s n i",
+                     ["(hi : AL.get? s.nodes n = some i)", "(hk : i.kind = .junction)"], ""),
+    "renameSource": ("RemoveOther", "(s : Reg) (old new : Name) (si : SourceInfo)", "renameSourceR s old new si",
+                     ["(hi : AL.get? s.sources old = some si)", "(hn : AL.get? s.sources new = none)", "(hne : new ≠ old)"], ""),
     "assignDemand": ("Demand", "(s : Reg) (n p : Name) (i : NodeInfo)", "assignDemandR s n p i",
                      ["(hi : AL.get? s.nodes n = some i)", "(hk : i.kind = .junction)"], ""),
     "removeFire": ("Demand", "(s : Reg) (n p : Name) (i : NodeInfo)", "removeFireR s n p i",
